@@ -416,6 +416,15 @@ def run(ctx):
                 if C.base(x) == "is_err":
                     tr, fa = fa, tr
                 okv = okv and all(y.startswith("RET(agg:Option::Some") for y in tr) and all(y.startswith("RET(agg:Option::None") for y in fa) and bool(tr) and bool(fa)
+        if not okv:
+            # the same decision spelled with a combinator: `parse_bre(..).is_ok().then_some(..)` (or `.then(|| ..)`)
+            ro = prim.expand_single_def_vars(bf, prim.origin_of_local(bf, 0))
+            for alt in prim.flatten_phi(ro):
+                a = alt.strip()
+                if a.k == "call" and a.a["name"] in ("then_some", "then") and a.kids:
+                    c0 = prim.expand_single_def_vars(bf, a.kids[0]).strip()
+                    if c0.k == "call" and c0.a["name"] == "is_ok" and any(c.a["name"] == "parse_bre" for c in c0.call_nodes()) and not any(x.k == "un" for x in c0.walk()):
+                        okv = True
         ctx.ob("R4", "bracket-validated", okv, "a bracket expression is accepted exactly when it compiles as a BRE (parse_bre ok => Some, else None => literal '[')", fn=bf, how="event graph")
         for b, t in bf.calls():
             if t.callee == G + "parse_bre":
